@@ -707,6 +707,32 @@ fn main() {
                 }
             }
             let mut it = found.unwrap_or_else(|| die(&format!("item not found: {} :: {}", parts[0], name)));
+            // R35: the contracts assume that a wire type is (de)serialised field by field as `#[derive(Serialize, Deserialize)]`
+            // does.  A `#[serde(..)]` attribute on the type, a field or a variant, or a hand-written Serialize/Deserialize impl,
+            // changes what decoding does (validation, custom visitors, defaults) in code the extraction does not see.
+            {
+                fn has_serde(attrs: &[Attribute]) -> bool {
+                    attrs.iter().any(|a| a.path().is_ident("serde"))
+                }
+                let custom = match &it {
+                    Item::Struct(s) => has_serde(&s.attrs) || s.fields.iter().any(|fl| has_serde(&fl.attrs)),
+                    Item::Enum(e) => has_serde(&e.attrs) || e.variants.iter().any(|v| has_serde(&v.attrs) || v.fields.iter().any(|fl| has_serde(&fl.attrs))),
+                    _ => false,
+                };
+                let hand_written = f.items.iter().any(|i2| {
+                    if let Item::Impl(im) = i2 {
+                        if let Some((_, tr, _)) = &im.trait_ {
+                            let t = tr.segments.last().map(|x| x.ident.to_string()).unwrap_or_default();
+                            let ty = im.self_ty.to_token_stream().to_string();
+                            return (t == "Serialize" || t == "Deserialize") && ty.split('<').next().map(|x| x.trim()) == Some(name.as_str());
+                        }
+                    }
+                    false
+                });
+                if custom || hand_written {
+                    die(&format!("UNSUPPORTED/UNDECIDED: {} :: {} customises its (de)serialisation ({}): the contracts assume the derived field-by-field encoding, so what decoding this type does is not decided here", parts[0], name, if custom { "#[serde(..)] attribute" } else { "hand-written Serialize/Deserialize impl" }));
+                }
+            }
             let lines = span_lines(&it);
             let orig = if lines.0 != usize::MAX { src_text(f, lines) } else { String::new() };
             let mut fmaps = maps.clone();
